@@ -179,8 +179,10 @@ def compare_values(prog: Program, run: Run, R: str) -> None:
     # byte fields are padded with zeros on the right up to the longer one
     pads = [x for x in walk_no_nested(f.node) if isinstance(x, ast.Call) and call_name(x) in (
         "ljust", "rjust")]
-    if len(pads) == 2 and all(call_name(x) == "ljust" and ast.unparse(x.args[1]) == "b'\\x00'"
-                              for x in pads):
+    # (counted by distinct text: an inlined temporary repeats the same padding call)
+    distinct = {ast.unparse(x) for x in pads}
+    if len(distinct) == 2 and all(call_name(x) == "ljust" and len(x.args) == 2 and
+                                  ast.unparse(x.args[1]) == "b'\\x00'" for x in pads):
         run.ok(R, C, "byte fields are zero-padded on the right to equal length", f.loc)
     else:
         run.violation(R, C, "bytes-padding", "byte fields are not zero-padded (ljust with "
